@@ -26,6 +26,14 @@ BUILT = {
             'Exploration only.',
             'Trusts vf.model and the stdlib json module; tolerance rule abs(a-b) <= 5e-7 + 1e-12|a|.',
             'DESIGN.md 3/C02'),
+    'C19': ('exhaustive pair/triple enumeration over a value catalogue + hypothesis pairs; generated grids vs all single-position edits',
+            'All ordered pairs (and equality-triples) over a ~330-value catalogue spanning every kind and the same text in every '
+            'text-like kind are checked for: no exception (except Quantity unit mismatch), complementarity, symmetry, '
+            'reflexivity, text-like kinds pairwise unequal, equal-hash, singleton identity under copy. Generated grids must '
+            'equal their copy, deepcopy and both round trips and be unequal, without raising, to every single-position edit '
+            '(row, column name, metadata name, cell of another kind, cell content).',
+            'NaN excluded from reflexivity; XStr equality beyond the laws not asserted; version/order not "material".',
+            'DESIGN.md 3/C19'),
     'C20': ('exhaustive operator x operand catalogue product + hypothesis ints/floats, differential oracle against the bare value',
             'Every arithmetic/bitwise/comparison/unary/conversion operator is evaluated on Quantity(v,u) and on v for the full '
             'product of a boundary catalogue (both operand orders, Quantity-Quantity, four units, three-argument pow); outcomes '
